@@ -94,7 +94,7 @@ def judge_msm(case, out):
     ident = case["id"]
     base = int(ident) // 10
     try:
-        payload, _o, _n = R.build(ident, case["shape"], "fp")
+        payload, _o, _n = R.build(ident, case["shape"], case.get("mode", "fp"))
     except R.TooLong:
         out.nontrivial = False
         return
@@ -107,7 +107,8 @@ def judge_msm(case, out):
     kept = None  # (result object, deep copy taken when it was returned, tag)
     for lm in (1, 2, 0, 2, 1):
         msg = RTCMMessage(payload=payload, labelmsm=lm)
-        tag = f"{ident} {case['shape']}" + (f" labelmsm={lm}" if lm != 1 else "")
+        tag = f"{ident} {case['shape']}" + (f" labelmsm={lm}" if lm != 1 else "") + \
+            (f" values={case['mode']}" if case.get("mode") else "")
         res = _check_msm(msg, ident, base, ref, tag, out, parse_msm)
         if out.violations:
             return
@@ -257,6 +258,11 @@ def cases(tier):
     for n in pinned.MSM_NUMBERS:
         for s in shapes:
             out.append({"kind": "msm", "id": str(n), "shape": s})
+        # every field zero (epoch 0: the first millisecond of the week / day) and every field at its
+        # all-ones value, on the small shapes
+        for s in shapes[:4] + [shapes[8]]:
+            for mode in ("zeros", "ones"):
+                out.append({"kind": "msm", "id": str(n), "shape": s, "mode": mode})
     # 4076_201
     for layers in (1, 2, 3, 4):
         degs = range(16) if layers == 1 else ((0, 3) if tier == "quick" else (0, 1, 3, 5))
